@@ -169,7 +169,7 @@ PROPS["C07"] = {
     "translators": ["consts", "tower"],
     "lean_targets": prop_modules("C07", extra=("JediVerif.Properties.C07b",)),
     "theorems": lambda: thms("C07", extra=(("JediVerif.Properties.C07b", "Jedi.C07"),)),
-    "streams": stream_set([("gt", 8)], ["asm", "portable64"], ALLCFG),
+    "streams": stream_set([("gt", 8)], ["asm", "portable32"], ALLCFG),
 }
 PROPS["C01"] = {
     "translators": ["consts", "tower"],
